@@ -297,9 +297,22 @@ func planKey(r *rand.Rand, idx int, maxTTL int) *keyPlan {
 			p.setup = append(p.setup, cmdOf("SET", k, "12", "KEEPTTL"))
 		}
 	case 2:
-		if p.typ == "string" {
-			p.follow = "APPEND/INCR keep deadline"
-			p.setup = append(p.setup, cmdOf("APPEND", k, "0"), cmdOf("INCR", k))
+		// changes to the value that are not a replacement of the key: the deadline stays, however much of the value
+		// they rewrite
+		edits := map[string][][][]string{
+			"string": {{{"APPEND", k, "0"}, {"INCR", k}}, {{"SETRANGE", k, "0", "123456"}}, {{"SETRANGE", k, "0", "77"}}, {{"SETRANGE", k, "1", "9"}, {"DECRBY", k, "3"}}, {{"INCRBYFLOAT", k, "1.5"}}, {{"SET", k, "33", "XX", "KEEPTTL"}}, {{"SETRANGE", k, "6", "x"}}},
+			"list":   {{{"LSET", k, "0", "z"}, {"LSET", k, "-1", "y"}}, {{"LPUSH", k, "n"}, {"RPOP", k}, {"RPOP", k}}, {{"LTRIM", k, "0", "-1"}}, {{"LMOVE", k, k, "LEFT", "RIGHT"}}, {{"LREM", k, "0", "a"}, {"RPUSHX", k, "c"}}},
+			"set":    {{{"SADD", k, "n"}, {"SREM", k, "a", "b"}}, {{"SPOP", k}, {"SADD", k, "m"}}, {{"SMOVE", k, k, "a"}}},
+			"hash":   {{{"HSET", k, "g", "2"}, {"HDEL", k, "f"}}, {{"HINCRBY", k, "f", "5"}, {"HINCRBYFLOAT", k, "f", "0.5"}}, {{"HSETNX", k, "h", "1"}, {"HSET", k, "f", "a long value that replaces the short one"}}},
+			"zset":   {{{"ZADD", k, "3", "c"}, {"ZREM", k, "a", "b"}}, {{"ZADD", k, "XX", "CH", "9", "a"}}, {{"ZADD", k, "INCR", "1", "b"}}},
+			"stream": {{{"XADD", k, "6-1", "g", "w"}}, {{"XADD", k, "MAXLEN", "1", "7-0", "g", "w"}}},
+		}
+		if es := edits[p.typ]; len(es) > 0 {
+			e := es[r.Intn(len(es))]
+			p.follow = "edited in place by " + e[0][0] + " (keeps deadline)"
+			for _, c := range e {
+				p.setup = append(p.setup, cmdOf(c...))
+			}
 		}
 	case 3:
 		p.follow = "PERSIST"
